@@ -795,27 +795,7 @@ theorem good_step {S : Sem Val Err Op} {w w' : World Val Err Op}
               · rw [hs1]
   | isin n cop x =>
     simp only [step] at h
-    cases h1 : run S fuel (.resolve n) w with
-    | mk r w1 =>
-      have hw : w' = w1 := by
-        simp only [h1] at h
-        cases r with
-        | ok v =>
-          simp only at h
-          split at h <;> (simp only [Prod.mk.injEq] at h; exact h.2.symm)
-        | error x => cases x <;> (simp only [Prod.mk.injEq] at h; exact h.2.symm)
-      subst hw
-      cases hn : w.nodes[n]? with
-      | none =>
-        rw [run_missing hn] at h1
-        simp only [Prod.mk.injEq] at h1
-        rw [← h1.2]; exact g
-      | some nd =>
-        have hr : r ≠ .error .fuel := by
-          intro hr; subst hr
-          simp only [h1, Prod.mk.injEq] at h
-          exact hf h.1.symm
-        exact (good_run g (call := .resolve n) ⟨trivial, nd, hn⟩ h1 hr).1
+    split at h <;> (simp only [Prod.mk.injEq] at h; obtain ⟨_, rfl⟩ := h; exact g)
   | readref hh =>
     simp only [step] at h
     split at h <;> (simp only [Prod.mk.injEq] at h; obtain ⟨_, rfl⟩ := h; exact g)
